@@ -28,7 +28,9 @@ RULE = (
     'the input powers the definition needs and the result lie in 1e-30..1e30 in the units used for single precision; always for double) and is '
     'judged against the 50-digit definition; distinct = distinct (kernel, units, mode, layout, value tuple). Route / round-trip '
     'cases: every listed route pair x units x mode over the same magnitude products. Graph cases: every origin x node of '
-    '_GRAPH_DYNAMICS_BY_ORIGIN that is an elastic kernel, and every elastic_* / kinematic sub-graph, x 2 unit sets x 2 dtypes.'
+    '_GRAPH_DYNAMICS_BY_ORIGIN that is an elastic kernel, and every elastic_* / kinematic sub-graph, x 2 unit sets x 2 dtypes. '
+    'History cases: per (kernel, units) the module is reloaded and the grid is run in each order of precision modes (quick: 3 '
+    'two-mode orders at 2 magnitudes; thorough: all permutations of all modes at the full alphabets), every element judged as in the grid.'
 )
 ASSUMPTIONS = [
     'h, m_n and eV->J are the float values scipp exposes, promoted exactly (ref/hp.py)',
@@ -43,7 +45,13 @@ BOUND = {
     'quick': '9 kernels x all unit combinations x 3 precision modes x 4 layouts at the SI magnitudes {1e-9, 1e-3, 0.37, 1e3, 1e9} per '
     'quantity (+ anchors 1.8 angstrom, 1 / 25.3 meV, 1 eV, 1/angstrom) x 8 scattering angles; 9 route / round-trip families x all units x '
     '2 modes; all graph nodes and sub-graph builders x 2 unit sets x 2 dtypes',
-    'thorough': 'same with every decade 1e-9..1e9 (19 values) + 0.37 per quantity (superset of the 8 magnitudes of DESIGN C01)',
+    'thorough': 'grid: 9 kernels x wide unit alphabet (time ns/us/ms/s; length mm/m/km/angstrom/um/nm/cm; wavelength '
+    'angstrom/nm/m/mm/um/pm; energy ueV/meV/eV/keV/J; Q 1/angstrom,1/nm,1/m,1/um; rad/deg) x 3 precision modes x 4 layouts x every '
+    'decade 1e-9..1e9 (19 values) + 0.37 (+ anchors) per quantity x 34 scattering angles (every decade 1e-15..1e-3 above 0 and '
+    'below pi, pi/2 +- 1e-9, 0.1, 1, 2, 3, pi); routes / round trips: 9 families x the same units and alphabets x 3 modes (f64, f32, '
+    'f32 data with f64 operands); history: every (kernel, units) x every order of all precision modes (6 orders, 2 for one-argument '
+    'kernels) after a module reload, same alphabets, vectorised layouts (1-d, 2-d / broadcast, per-pixel); graph and layout cases as quick '
+    '(+ 2 more unit-dtype variants)',
 }
 REQUIRED_CLASSES = [
     'history_f32_then_f64', 'history_f64_then_f32', 'double_ok', 'single_ok', 'out_of_domain_single', 'layout_0d', 'layout_1d', 'layout_bcast', 'layout_perpixel', 'layout_2d',
@@ -58,6 +66,18 @@ WAV_UNITS = ('angstrom', 'nm', 'm', 'mm')
 Q_UNITS = ('1/angstrom', '1/nm', '1/m')
 UNITS_OF_KIND = {'time': TIME_UNITS, 'length': LEN_UNITS, 'energy': kin.ENERGY_UNITS, 'angle': kin.ANGLE_UNITS, 'inv_length': Q_UNITS}
 ARG_UNITS = {'wavelength': WAV_UNITS}  # by argument name, overrides the kind
+# thorough tier: wider unit alphabets (every SI-prefixed unit between the stated ends)
+UNITS_OF_KIND_WIDE = {
+    'time': TIME_UNITS, 'length': ('mm', 'm', 'km', 'angstrom', 'um', 'nm', 'cm'), 'energy': kin.ENERGY_UNITS_WIDE,
+    'angle': kin.ANGLE_UNITS, 'inv_length': ('1/angstrom', '1/nm', '1/m', '1/um'),
+}
+ARG_UNITS_WIDE = {'wavelength': ('angstrom', 'nm', 'm', 'mm', 'um', 'pm')}
+
+
+def _units_for(name, kind, tier):
+    if tier == 'thorough':
+        return ARG_UNITS_WIDE.get(name, UNITS_OF_KIND_WIDE[kind])
+    return ARG_UNITS.get(name, UNITS_OF_KIND[kind])
 
 MAG_QUICK = ('1e-9', '1e-3', '0.37', '1e3', '1e9')
 MAG_DECADES = tuple(sorted({*(f'1e{k}' for k in range(-9, 10)), '0.37'}, key=Fraction))  # every decade of the stated range
@@ -70,6 +90,20 @@ ANGLE_DEG = {
     'tiny': 1e-12 * 180 / math.pi, 'small': 1e-6 * 180 / math.pi, 'tenth': 0.1 * 180 / math.pi, 'below_right': 90.0 - 1e-9 * 180 / math.pi,
     'right': 90.0, 'two': 2.0 * 180 / math.pi, 'below_pi': 180.0 - 1e-9 * 180 / math.pi, 'pi': 180.0,
 }
+# thorough tier: every decade 1e-15 .. 1e-3 above 0 and below pi, around pi/2, and the interior (34 angles)
+_D = 180 / math.pi
+ANGLES_DEEP_RAD = (
+    [10.0**-k for k in range(15, 2, -1)]
+    + [0.1, 1.0, math.pi / 2 - 1e-9, math.pi / 2, math.pi / 2 + 1e-9, 2.0, 3.0]
+    + [math.pi - 10.0**-k for k in range(3, 16)]
+    + [math.pi]
+)
+ANGLES_DEEP_DEG = (
+    [10.0**-k * _D for k in range(15, 2, -1)]
+    + [0.1 * _D, _D, 90.0 - 1e-9 * _D, 90.0, 90.0 + 1e-9 * _D, 2.0 * _D, 3.0 * _D]
+    + [180.0 - 10.0**-k * _D for k in range(3, 16)]
+    + [180.0]
+)
 
 KERNEL_NAMES = tuple(kin.KERNELS)
 FUNCS = {name: getattr(K, name) for name in KERNEL_NAMES}
@@ -92,6 +126,8 @@ def _si_magnitudes(kind, tier):
 def _values_for(arg, kind, unit, tier):
     """Float test values of one argument expressed in ``unit``."""
     if kind == 'angle':
+        if tier == 'thorough':
+            return [float(x) for x in (ANGLES_DEEP_RAD if unit == 'rad' else ANGLES_DEEP_DEG)]
         names = ANGLES8
         table = ANGLE_RAD if unit == 'rad' else ANGLE_DEG
         return [float(table[n]) for n in names]
@@ -103,9 +139,9 @@ def _values_for(arg, kind, unit, tier):
     return [float(kin.from_si(kind, m, unit)) for m in mags]
 
 
-def _unit_choices(kernel):
+def _unit_choices(kernel, tier='quick'):
     spec = kin.KERNELS[kernel]
-    per_arg = [ARG_UNITS.get(name, UNITS_OF_KIND[kind]) for name, kind in spec['args']]
+    per_arg = [_units_for(name, kind, tier) for name, kind in spec['args']]
     names = [name for name, _ in spec['args']]
     return [dict(zip(names, combo, strict=True)) for combo in itertools.product(*per_arg)]
 
@@ -148,13 +184,13 @@ def cases(tier):
     for kernel in KERNEL_NAMES:
         nargs = len(kin.KERNELS[kernel]['args'])
         modes = ('f64', 'f32', 'f32data') if nargs > 1 else ('f64', 'f32')
-        for units in _unit_choices(kernel):
+        for units in _unit_choices(kernel, tier):
             for mode in modes:
                 out.append({'kind': 'grid', 'kernel': kernel, 'units': units, 'mode': mode, 'tier': tier})
     for route, args in ROUTES.items():
-        per_arg = [ARG_UNITS.get(name, UNITS_OF_KIND[kind]) for name, kind in args]
+        per_arg = [_units_for(name, kind, tier) for name, kind in args]
         for combo in itertools.product(*per_arg):
-            for mode in ('f64', 'f32'):
+            for mode in ('f64', 'f32', 'f32data') if tier == 'thorough' and len(args) > 1 else ('f64', 'f32'):
                 out.append({'kind': 'route', 'route': route, 'units': dict(zip([a for a, _ in args], combo, strict=True)), 'mode': mode, 'tier': tier})
     for origin, nodes in EXPECTED_WIRING.items():
         for node in nodes:
@@ -170,9 +206,13 @@ def cases(tier):
     # call-history dimension: the same kernel and units called in the other precision first (module state reset by
     # reloading the kernel module), so a result that depends on an earlier call - e.g. a converted constant cached at the
     # first caller's precision - is judged at its own precision bound.
+    # thorough: every order of all precision modes x the wide unit alphabet x the decade magnitudes (vectorised layouts).
     for kernel in KERNEL_NAMES:
-        for units in _unit_choices(kernel):
-            out.append({'kind': 'history', 'kernel': kernel, 'units': units})
+        for units in _unit_choices(kernel, tier):
+            if tier == 'thorough':
+                out.append({'kind': 'history', 'kernel': kernel, 'units': units, 'deep': True})
+            else:
+                out.append({'kind': 'history', 'kernel': kernel, 'units': units})
     return out
 
 
@@ -209,16 +249,16 @@ def _var(dims, shape, flat, unit, dtype):
 class _Judge:
     """Compares kernel output elements with the cached 50-digit reference."""
 
-    def __init__(self, rec, kernel, units, mode):
+    def __init__(self, rec, kernel, units, mode, cache=None):
         self.rec, self.kernel, self.units, self.mode = rec, kernel, units, mode
         self.prec = _precision(mode)
         self.tol = TOL[self.prec]
         self.names = [n for n, _ in kin.KERNELS[kernel]['args']]
-        self.cache = {}
+        self.cache = {} if cache is None else cache  # may be shared between runs of the same (kernel, units)
         self.worst = 0.0
 
     def ref(self, vals):
-        key = tuple(vals)
+        key = (self.prec, *vals)
         hit = self.cache.get(key)
         if hit is None:
             values = dict(zip(self.names, vals, strict=True))
@@ -281,7 +321,7 @@ def _check_meta(rec, kernel, units, mode, layout, res, want_dims):
 # grid cases
 
 
-def _run_grid(case, rec):
+def _run_grid(case, rec, layouts=('0d', '1d', '2d', 'bcast', 'perpixel'), cache=None):
     kernel, units, mode, tier = case['kernel'], case['units'], case['mode'], case['tier']
     spec = kin.KERNELS[kernel]
     fn = FUNCS[kernel]
@@ -289,33 +329,37 @@ def _run_grid(case, rec):
     dts = [_np_dtype(mode, i == 0) for i in range(len(names))]
     alph = [_values_for(n, k, units[n], tier) for n, k in spec['args']]
     recv = [_received(a, d) for a, d in zip(alph, dts, strict=True)]  # what the kernel sees, per argument alphabet
-    judge = _Judge(rec, kernel, units, mode)
+    judge = _Judge(rec, kernel, units, mode, cache)
     idx_grid = list(itertools.product(*[range(len(a)) for a in alph]))
 
     def vals_at(idx):
         return [float(recv[k][i]) for k, i in enumerate(idx)]
 
     # layout 0d: one scalar call per configuration
-    for idx in idx_grid:
+    for idx in idx_grid if '0d' in layouts else ():
         kw = {n: _var((), (), [alph[k][i]], units[n], dts[k]) for k, (n, i) in enumerate(zip(names, idx, strict=True))}
         res = fn(**kw)
         rec.transitions += 1
         if _check_meta(rec, kernel, units, mode, '0d', res, {}):
             judge.element('0d', vals_at(idx), res.value)
-    rec.cls('layout_0d')
+    if '0d' in layouts:
+        rec.cls('layout_0d')
 
     # layout 1d: zipped product along one dim
     n = len(idx_grid)
-    kw = {nm: _var(('x',), (n,), [alph[k][idx[k]] for idx in idx_grid], units[nm], dts[k]) for k, nm in enumerate(names)}
-    res = fn(**kw)
-    rec.transitions += 1
-    if _check_meta(rec, kernel, units, mode, '1d', res, {'x': n}):
-        got = res.values
-        for j, idx in enumerate(idx_grid):
-            judge.element('1d', vals_at(idx), got[j])
-    rec.cls('layout_1d')
+    if '1d' in layouts:
+        kw = {nm: _var(('x',), (n,), [alph[k][idx[k]] for idx in idx_grid], units[nm], dts[k]) for k, nm in enumerate(names)}
+        res = fn(**kw)
+        rec.transitions += 1
+        if _check_meta(rec, kernel, units, mode, '1d', res, {'x': n}):
+            got = res.values
+            for j, idx in enumerate(idx_grid):
+                judge.element('1d', vals_at(idx), got[j])
+        rec.cls('layout_1d')
 
-    if len(names) == 1:
+    if len(names) == 1 and '2d' not in layouts:
+        pass
+    elif len(names) == 1:
         # layout 2d: (pixel, tof) array holding the alphabet and its reverse
         m = len(alph[0])
         flat = list(alph[0]) + list(reversed(alph[0]))
@@ -343,6 +387,9 @@ def _run_grid(case, rec):
                 for ti in range(m):
                     judge.element('bcast', vals_at((ti, *s)), got[pi, ti])
         rec.cls('layout_bcast')
+        if 'perpixel' not in layouts:
+            rec.observe(judge.worst)
+            return
         # layout perpixel: dense 2-d data operand, 1-d per-pixel secondaries
         data2d = [alph[0][(ti + pi) % m] for pi in range(p) for ti in range(m)]
         kw[names[0]] = _var(('pixel', 'tof'), (p, m), data2d, units[names[0]], dts[0])
@@ -406,7 +453,7 @@ def _route_compute(route, kw):
 
 def _unit_name_of(var, kernel_arg_kind):
     """Name in the ref tables of a Variable's unit (for intermediates produced by kernels)."""
-    tables = {'length': kin.LENGTH, 'energy': {u: None for u in kin.ENERGY_UNITS}, 'inv_length': kin.INV_LENGTH, 'time': kin.TIME, 'angle': {'rad': None, 'deg': None}}
+    tables = {'length': kin.LENGTH, 'energy': {u: None for u in kin.ENERGY_UNITS_WIDE}, 'inv_length': kin.INV_LENGTH, 'time': kin.TIME, 'angle': {'rad': None, 'deg': None}}
     for name in tables[kernel_arg_kind]:
         if var.unit == sc.Unit(name):
             return name
@@ -422,13 +469,13 @@ def _run_route(case, rec):
     route, units, mode, tier = case['route'], case['units'], case['mode'], case['tier']
     args = ROUTES[route]
     names = [n for n, _ in args]
-    dt = 'float64' if mode == 'f64' else 'float32'
+    dt = 'float64' if mode == 'f64' else 'float32'  # dtype of the data operand = contract dtype of every result on the route
     prec = _precision(mode)
     tol = 4 * TOL[prec]
     alph = [_values_for(n, k, units[n], tier) for n, k in args]
     grid = list(itertools.product(*[range(len(a)) for a in alph]))
     n = len(grid)
-    kw = {nm: _var(('x',), (n,), [alph[k][idx[k]] for idx in grid], units[nm], dt) for k, nm in enumerate(names)}
+    kw = {nm: _var(('x',), (n,), [alph[k][idx[k]] for idx in grid], units[nm], _np_dtype(mode, k == 0)) for k, nm in enumerate(names)}
     a, b, stages = _route_compute(route, kw)
     rec.transitions += len(stages)
     site = f'conversion.tof:{route}'
@@ -611,6 +658,18 @@ def _run_history(case, rec):
     import importlib
 
     nargs = len(kin.KERNELS[case['kernel']]['args'])
+    if case.get('deep'):
+        # every order of all precision modes, decade magnitudes and deep angle alphabet, vectorised layouts; the 50-digit
+        # references are shared between the orders (same kernel, units and values)
+        modes = ('f64', 'f32', 'f32data') if nargs > 1 else ('f64', 'f32')
+        cache = {}
+        for order in itertools.permutations(modes):
+            importlib.reload(K)
+            for mode in order:
+                _run_grid({'kind': 'grid', 'kernel': case['kernel'], 'units': case['units'], 'mode': mode, 'tier': 'thorough'}, rec, layouts=('1d', '2d', 'bcast', 'perpixel'), cache=cache)
+            rec.cls('history_' + '_then_'.join(order[:2]))
+            rec.cls('history_order_of_all_modes')
+        return
     orders = [('f32', 'f64'), ('f64', 'f32')] + ([('f32data', 'f64')] if nargs > 1 else [])
     for order in orders:
         importlib.reload(K)  # fresh module-level state; function objects keep working (same module dict)
@@ -659,3 +718,6 @@ def run_case(case, rec):
         _layouts.run_layout_case(case, rec)
     else:
         _run_case_main(case, rec)
+
+
+REQUIRED_CLASSES = {'quick': list(REQUIRED_CLASSES), 'thorough': [*REQUIRED_CLASSES, 'history_order_of_all_modes', 'history_f32data_then_f64', 'history_f64_then_f32data']}
